@@ -7,6 +7,7 @@ import (
 	"github.com/ipld/go-ipld-prime/datamodel"
 	"github.com/ipld/go-ipld-prime/linking"
 	"github.com/ipld/go-ipld-prime/linking/preload"
+	"github.com/ipld/go-ipld-prime/schema"
 	"github.com/ipld/go-ipld-prime/traversal/selector"
 )
 
@@ -126,7 +127,13 @@ func (prog Progress) WalkLocal(n datamodel.Node, fn VisitFn) error {
 			if err != nil {
 				return err
 			}
-			ks, _ := k.AsString()
+			if tk, ok := k.(schema.TypedNode); ok {
+				k = tk.Representation()
+			}
+			ks, err := k.AsString()
+			if err != nil {
+				return err
+			}
 			progNext := prog
 			progNext.Path = prog.Path.AppendSegmentString(ks)
 			if err := progNext.WalkLocal(v, fn); err != nil {
